@@ -245,6 +245,26 @@ theorem Stack_update_replaces_data (valid : Bytes → Bool) (eval : Bytes → Ro
     simp [hl', Latest.desc, upd_same]
   exact ⟨hd, Stack_routes_from_latest valid eval h' T (named T d) hd⟩
 
+/-- **A change to a contract with nothing routable un-routes every old binding** — a corollary of
+    `Stack_update_replaces_data` (itself `Stack_routes_from_latest` at the description just delivered): if the description `d`
+    a poll delivers for the present target `T` gives the PatternRouter no route for ANY HTTP method (no services, services
+    without methods, only unparseable templates: `built valid (named T d) m = none`), then after `update T d` NO HTTP lookup —
+    whatever method, path and matcher, including every binding and default `POST /pkg.Svc/Method` path of `T`'s earlier
+    contracts — is answered in `T`'s name.  "Zero routes to add" is still an update: it is what removes the old ones. -/
+theorem Stack_update_to_empty_unroutes (valid : Bytes → Bool) (eval : Bytes → Route → Outcome) (h : List Stack.Op) (T : Name)
+    (d : Desc) (hpres : presentOf h T = true) (hempty : ∀ m, built valid (named T d) m = none) :
+    ∀ m path v r,
+      routeHTTP (run valid St.init (h ++ [.update T d])).present eval (run valid St.init (h ++ [.update T d])).pat.static m path
+        ≠ .found T v r := by
+  intro m path v r hf
+  obtain ⟨_, _, hpat⟩ := Stack_update_replaces_data valid eval h T d hpres
+  obtain ⟨_, rs, hb, _⟩ := hpat m path v r hf
+  rw [hempty m] at hb
+  cases hb
+
+/-- the hypothesis is satisfiable: a description without services builds no route for any HTTP method -/
+example (valid : Bytes → Bool) (T : Name) (m : HMethod) : built valid (named T ⟨[], 7, []⟩) m = none := rfl
+
 /-- **Remove and Add of one name started together** (the `X` operation of the area): whichever call takes effect first —
     `Remove(T); Add(T, d)`, or `Add(T, d)` refused as a duplicate, then `Remove(T)`, then the Add repeated — the settled
     state is the SAME: `T` present in front of the new description `d`, every answer in its name computed from `d`.
